@@ -69,7 +69,7 @@ class TimeEncoderMixIn(object):
         if self.PLUS_CHAR in numbers or self.MINUS_CHAR in numbers:
             raise error.PyAsn1Error('Must be UTC time: %r' % value)
 
-        if numbers[-1] != self.Z_CHAR:
+        if not numbers or numbers[-1] != self.Z_CHAR:
             raise error.PyAsn1Error('Missing "Z" time zone specifier: %r' % value)
 
         if self.COMMA_CHAR in numbers:
